@@ -5,5 +5,6 @@ CONSTANTS
   MethodPathBug = FALSE
   EmitMod = 1
   EmitPick = 0
+  MultiMod = 1
 INVARIANTS ToolMatchesModuloKnown IdenticalIsSilent
 CHECK_DEADLOCK FALSE
